@@ -42,6 +42,11 @@ def layouts(tier="quick"):
     add("f32", [("F", PType("F32_T", "Float", FloatEnc(32)))])
     add("str16", [("S", PType("S16_T", "String", StrEnc(Fixed(16), "US-ASCII")))])
     add("bin12,u4", [("B", PType("B12_T", "Binary", BinEnc(Fixed(12)))), ("N", U(4))])
+    # strings whose buffer is not a whole number of bytes, starting on a byte boundary: last field (unread bits follow) and followed by fields
+    add("str12", [("S", PType("S12_T", "String", StrEnc(Fixed(12), "US-ASCII")))])
+    add("str12,u4", [("S", PType("S12_T", "String", StrEnc(Fixed(12), "US-ASCII"))), ("N", U(4))])
+    add("str29,u3,u8", [("S", PType("S29_T", "String", StrEnc(Fixed(29), "ISO-8859-1"))), ("N", U(3)), ("M", U(8))])
+    add("u8,str20term", [("A", U(8)), ("S", PType("S20_T", "String", StrEnc(Fixed(20), "UTF-8", None, "00")))])
     add("s64", [("Q", PType("S64_T", "Integer", IntEnc(64, "signed")))])
     add("u16le,u8", [("A", PType("U16LE_T", "Integer", IntEnc(16, "unsigned", True))), ("B", U(8))])
     for b in (0, 8, -8):
@@ -267,7 +272,7 @@ def _task(task):
                                                                                               "tier": task.get("tier", "quick"), "streamcase": True}, note=why)
         t.programs += 1
     if 0 in task["layouts"]:
-        t.sample({"layout": ls[7][0], "LEN": "0..5", "data_lengths": "1..required+3", "fills": ["00", "FF", "41"], "parse_bad_pkts": [True, False]})
+        t.sample({"layout": ls[11][0], "LEN": "0..5", "data_lengths": "1..required+3", "fills": ["00", "FF", "41"], "parse_bad_pkts": [True, False]})
     return t
 
 
@@ -335,7 +340,7 @@ def run(ctx):
     coverage = {
         "programs": tally.programs,
         "exhaustive": True,
-        "bound": (f"{n} layouts ({'with the thorough-only alignment/field-kind variants; ' if not ctx.quick else ''}fixed: u8,u16 / u3,u13 / f32 / str16 / bin12,u4 / s64 / u16le,u8; length dependent: LEN+BLOB 8*LEN+{{0,8,-8}}, "
+        "bound": (f"{n} layouts ({'with the thorough-only alignment/field-kind variants; ' if not ctx.quick else ''}fixed: u8,u16 / u3,u13 / f32 / str16 / bin12,u4 / str12 / str12,u4 / str29,u3,u8 / u8,str20 / s64 / u16le,u8; length dependent: LEN+BLOB 8*LEN+{{0,8,-8}}, "
                   "rest-of-packet 8*PKT_LEN-{8,16,64}+TAIL, dynamic string, unaligned variants, float after dynamic blob, calibrated length, bit-granular length) "
                   f"x LEN 0..{5 if ctx.quick else 9} x every data length 1..required+{3 if ctx.quick else 6} bytes x {3 if ctx.quick else 4} fills x parse_bad_pkts {{T,F}}, from XML and from objects; "
                   "5 multi-container layouts (base container with a field after the header, two-level inheritance with abstract and concrete middle levels, a nested "
